@@ -4,5 +4,5 @@ cd "$(dirname "$0")" || exit 1
 export PATH=/opt/veriftools/go1.26.8/bin:$PATH GOFLAGS=-mod=mod GOPROXY=off GOSUMDB=off GOTOOLCHAIN=local CGO_ENABLED=1
 mkdir -p bin evidence
 go1.26.8 build -o bin/vcheckd ./cmd/vcheckd || exit 1
-bin/vcheckd build ${VERIF_BUILD_KINDS:-plain p:c01 p:c10 p:c11 p:c20 p:cache p:sqlite p:ws inst} || exit 1
+bin/vcheckd build ${VERIF_BUILD_KINDS:-plain p:c01 p:c10 p:c11 p:c20 p:cache p:sqlite p:ws inst stmt race} || exit 1
 echo "setup ok"
